@@ -260,3 +260,12 @@ def run(ctx, rep):
     if appo:
         order_and_who(R, rep, appo)
     dividend_isolation(R, rep)
+    # "in any currency": the event's value AND its fees reach the matcher in pounds at the line's own month's rate (shared with
+    # C08-R1); a fee left in its own currency is netted off the GBP distribution as if it were pounds (seeded change C11-s4)
+    import rules.c08 as c08
+    from core import Report
+    r2 = Report("tmp")
+    c08.field_wise(ctx.F, r2)
+    for o in r2.obligations:
+        if o["instance"].split(".")[0] in ("CapReturn", "Accumulation"):
+            rep.ob("R4", "gbp:" + o["instance"], o["ok"], o["detail"], o["site"], key="R4:gbp:" + o["instance"])
